@@ -16,11 +16,15 @@ def main(argv):
     seed = int(os.environ.get("VERIF_SEED", "1") or 1)
     ctx = core.Ctx(pid, tier, seed)
     # 1. the proof side: the development must build (every proof re-checked when sources changed; thorough: from clean)
-    coq = build.ensure_coq(clean=(tier == "thorough" and os.environ.get("VERIF_NO_CLEAN") is None))
+    want_clean = tier == "thorough" and os.environ.get("VERIF_NO_CLEAN") is None and not build.clean_build_done()
+    coq = build.ensure_coq(clean=want_clean)
+    if want_clean and coq["ok"]: build.mark_clean_build()
     proof = core.proof_evidence(pid, coq["ok"], coq["log"])
     ctx.notes["coq_build"] = dict(rebuilt=coq["rebuilt"], seconds=round(coq["seconds"], 1), ok=coq["ok"])
     if tier == "thorough" and coq["ok"]:
         ctx.notes["coqchk"] = build.coqchk(pid)
+        if ctx.notes["coqchk"].get("ran") and ctx.notes["coqchk"].get("ok") is False:
+            ctx.violation("coqchk", "coqchk rejects the compiled development: %s" % ctx.notes["coqchk"]["output_tail"][-300:], dict(kind="proof", coqchk=ctx.notes["coqchk"]), found_input=False)
     if coq["ok"]:
         try:
             g = build.golden()
